@@ -116,13 +116,21 @@ func evaluate(prop string, sc *Scn, x *vrt.Sched, choices []int, res *scnResult,
 	if x.Horizon {
 		return // not a complete execution: oracles on final state do not apply
 	}
+	if x.RaceAbort {
+		sc2 := *sc
+		sc2.Check = nil
+		sc = &sc2
+		w = nil // only the race verdicts below apply
+	}
 	if sc.Check != nil && w != nil {
 		for _, f := range sc.Check(x, w) {
 			report(f)
 		}
 	}
-	for _, f := range universal(sc, x, w) {
-		report(f)
+	if !x.RaceAbort {
+		for _, f := range universal(sc, x, w) {
+			report(f)
+		}
 	}
 	if !sc.NoRaces {
 		var keys []string
@@ -433,6 +441,12 @@ func exploreSharded(prop string, sc *Scn, bound int, deadline time.Time) *scnRes
 	if bound >= 0 && bound <= 1 {
 		want = 1 << 30 // small: stay in-process
 	}
+	defer func() {
+		if r := recover(); r != nil {
+			fmt.Fprintf(os.Stderr, "sched: checker error in scenario %s (bound %d): %v\n", sc.Name, bound, r)
+			os.Exit(2)
+		}
+	}()
 	pending := e.Expand(want)
 	total.Execs, total.Steps, total.Horizons, total.CapHit = e.Execs, e.Steps, e.Horizons, e.CapHit
 	if len(pending) == 0 || e.CapHit {
